@@ -1,4 +1,5 @@
 import Dhcp.Go.Basic
+import Dhcp.Spec.Name
 /-
   RFC interpretations of DHCPv4 option *values* (C17), written as independent
   partial functions on bytes: `none` = the value is malformed for the type.
@@ -225,5 +226,14 @@ decreasing_by all_goals (simp; try omega)
 
 def relayPadEnd (v : Bytes) : Option (UInt8 → Option Bytes) :=
   (subOptionsPadEnd v).map subOptionValue
+
+/-- RFC 3397 §2 domain search list: "the searchstring … a list of domain
+names, encoded as in RFC 1035 §4.1.4", compression pointers being offsets
+into the option value itself.  This is exactly the relation `Name.DecodesTo`
+(Dhcp/Spec/Name.lean, written for C19 independently of the label model):
+names in dotted form, in order.  As the library documents, a last name
+without its terminating zero octet is accepted as well (RFC 4704 §4.2
+partial name); RFC 3397 itself does not provide for it. -/
+def searchList (v : Bytes) (names : List Bytes) : Prop := Name.DecodesTo v names
 
 end Dhcp.Spec.Val4
